@@ -244,7 +244,8 @@ def coq_props(pid, timeout=600):
                 res["bad_axioms"].append("%s depends on %s" % (name, a))
     thms = [m.group(2) for m in STMT_RE.finditer(src)]
     res["theorems"] = thms
-    missing = [t for t in thms if t not in order]
+    order_last = {o.split('.')[-1] for o in order}
+    missing = [t for t in thms if t not in order_last]
     if missing:
         res["failed_stage"] = "assumptions-missing"
         res["failed_at"] = "no Print Assumptions for " + ",".join(missing)
